@@ -50,7 +50,20 @@ var rtypeType = types.NewPointer(types.NewNamed(types.NewTypeName(0, nil, "refle
 func init() {
 	// logging: everything in these packages is a no-op returning zero values
 	for _, pkg := range []string{"github.com/ipfs/go-log", "github.com/ipfs/go-log/v2", "go.uber.org/zap", "log"} {
-		pkgRules[pkg] = func(fn *ssa.Function) externalFn { return opaqueZero(fn) }
+		pkgRules[pkg] = func(fn *ssa.Function) externalFn {
+			if fn.Name() == "Logger" && fn.Signature.Results().Len() == 1 {
+				// logging.Logger(name): a non-nil logger object whose methods are no-ops
+				return func(fr *frame, a []value) value {
+					rt := fn.Signature.Results().At(0).Type()
+					if _, ok := rt.Underlying().(*types.Pointer); ok {
+						var s value = zero(mustDeref(rt))
+						return &s
+					}
+					return zero(rt)
+				}
+			}
+			return opaqueZero(fn)
+		}
 	}
 	pkgRules["fmt"] = func(fn *ssa.Function) externalFn {
 		switch fn.Name() {
@@ -83,12 +96,36 @@ func init() {
 				// result type *multierror.Error: return a non-nil opaque object
 				res := fn.Signature.Results().At(0).Type()
 				var s value = zero(mustDeref(res))
-				return &s
+				ptr := &s
+				msg := ""
+				if old, ok := a[0].(iface); ok && old.t != nil {
+					if op, ok := old.v.(*value); ok && op != nil {
+						msg = fr.i.p.merrMsg[op]
+					}
+				}
+				for _, e := range a[1].([]value) {
+					if ei, ok := e.(iface); ok && ei.t != nil {
+						if ep, ok := ei.v.(*value); ok && ep != nil {
+							if st, ok := (*ep).(structure); ok && len(st) == 1 {
+								if s, ok := st[0].(string); ok {
+									msg += "[" + s + "]"
+								}
+							}
+						}
+					}
+				}
+				if fr.i.p.merrMsg == nil {
+					fr.i.p.merrMsg = map[*value]string{}
+				}
+				fr.i.p.merrMsg[ptr] = msg
+				return ptr
 			}
 		}
 		return nil
 	}
-	intrinsics["(*github.com/hashicorp/go-multierror.Error).Error"] = func(fr *frame, a []value) value { return "<multierror>" }
+	intrinsics["(*github.com/hashicorp/go-multierror.Error).Error"] = func(fr *frame, a []value) value {
+		return "<multierror " + fr.i.p.merrMsg[a[0].(*value)] + ">"
+	}
 	intrinsics["(*github.com/hashicorp/go-multierror.Error).ErrorOrNil"] = func(fr *frame, a []value) value {
 		if a[0].(*value) == nil {
 			return iface{}
